@@ -29,6 +29,18 @@ class D(frozenset):
         return 'dep{%s}' % ','.join(str(x) for x in sorted(self))
 
 
+class S(str):
+    """a std::string value with concrete contents"""
+    __slots__ = ()
+
+
+NPOS = (1 << 64) - 1
+
+
+def _pos(i):
+    return NPOS if i < 0 else i
+
+
 class It:
     """iterator value: a position in a sequence (index) or in a map (key, or END)"""
     END = ('<end>',)
@@ -87,6 +99,7 @@ class Interp:
         self.freed = set()
         self.heap = 0
         self.globals = {}
+        self.string_mode = False     # build std::string values as concrete text (S) instead of passing C-string pointers through
         self.noeval = {'LogPrintfFunc', 'LogPrintf', 'printf', 'fprintf'}
 
     # ---- memory ------------------------------------------------------------
@@ -185,7 +198,7 @@ class Interp:
             elif ct.startswith('std::function<'):
                 rec[fd['n']] = 0
             elif ct.startswith('std::') and ('string' in ct):
-                rec[fd['n']] = P('str:empty', 0)
+                rec[fd['n']] = S('') if self.string_mode else P('str:empty', 0)
             elif ct in self.prog.classes:
                 rec[fd['n']] = self.new_record(ct)
             elif '*' in ct and fd.get('hasinit') and fd.get('initv', 0) is None:
@@ -223,6 +236,130 @@ class Interp:
                     return None
                 out.append(chr(c))
         return None
+
+    def to_text(self, v):
+        if isinstance(v, str):
+            return str(v)
+        c = self.cstr(v)
+        if c is not None:
+            return c
+        if isinstance(v, P) and isinstance(self.mem.get(v.r), list):
+            out = []
+            for x in self.mem[v.r][v.o:]:
+                if x == 0:
+                    return ''.join(out)
+                if not isinstance(x, int):
+                    return None
+                out.append(chr(x))
+        return None
+
+    def string_call(self, f, st, env, name, obj, args):
+        """std::string operations on concrete text (obj may be S or, for the free operators, a C string)"""
+        s_ = self.to_text(obj)
+        if s_ is None:
+            return NotImplemented
+        a = list(args)
+        t0 = self.to_text(a[0]) if a else None
+        ch0 = chr(a[0]) if a and isinstance(a[0], int) and 0 <= a[0] < 256 else None
+        pat = t0 if t0 is not None else ch0
+
+        def mutate(v):
+            if 'obj' in st:
+                self.write(f, st, self.lv(f, st['obj'], env), S(v), env)
+            return S(v)
+        if name in ('size', 'length'):
+            return len(s_)
+        if name == 'empty':
+            return int(not s_)
+        if name in ('c_str', 'data'):
+            self._tmp += 1
+            nm = 'str:tmp#%d' % self._tmp
+            self.mem[nm] = [ord(c) for c in s_] + [0]
+            return P(nm, 0)
+        if name in ('operator[]', 'at'):
+            i = a[0]
+            if not isinstance(i, int):
+                return NotImplemented
+            if i == len(s_) and name == 'operator[]':
+                return 0
+            if not (0 <= i < len(s_)):
+                self.fault(f, st, 'std::string::%s(%d) on a string of %d character(s)%s' % (name, i, len(s_), ': std::out_of_range is thrown' if name == 'at' else ''))
+                raise _Abort()
+            return ord(s_[i])
+        if name in ('front', 'back'):
+            if not s_:
+                self.fault(f, st, 'std::string::%s() on an empty string' % name)
+                raise _Abort()
+            return ord(s_[0] if name == 'front' else s_[-1])
+        if name in ('find', 'find_first_of', 'find_first_not_of', 'rfind', 'find_last_of', 'find_last_not_of') and pat is not None:
+            start = a[1] if len(a) > 1 and isinstance(a[1], int) else (NPOS if name in ('rfind', 'find_last_of', 'find_last_not_of') else 0)
+            if name == 'find':
+                return _pos(s_.find(pat, start)) if start <= len(s_) else NPOS
+            if name == 'rfind':
+                return _pos(s_.rfind(pat, 0, min(start, len(s_)) + len(pat)))
+            idxs = range(min(start, len(s_) - 1), -1, -1) if name.startswith('find_last') else range(start, len(s_))
+            want_in = name in ('find_first_of', 'find_last_of')
+            for i in idxs:
+                if (s_[i] in pat) == want_in:
+                    return i
+            return NPOS
+        if name == 'substr':
+            pos = a[0] if a and isinstance(a[0], int) else 0
+            n = a[1] if len(a) > 1 and isinstance(a[1], int) else NPOS
+            if pos > len(s_):
+                self.fault(f, st, 'std::string::substr(%d) on a string of %d character(s): std::out_of_range is thrown' % (pos, len(s_)))
+                raise _Abort()
+            return S(s_[pos:pos + n] if n < NPOS - pos else s_[pos:])
+        if name == 'compare':
+            if len(a) == 3 and isinstance(a[0], int) and isinstance(a[1], int):
+                t = self.to_text(a[2])
+                if t is None:
+                    return NotImplemented
+                if a[0] > len(s_):
+                    self.fault(f, st, 'std::string::compare(%d, ...) on a string of %d character(s): std::out_of_range is thrown' % (a[0], len(s_)))
+                    raise _Abort()
+                x = s_[a[0]:a[0] + a[1]]
+                return (x > t) - (x < t)
+            if t0 is not None:
+                return (s_ > t0) - (s_ < t0)
+            return NotImplemented
+        if name in ('operator==', 'operator!=') and t0 is not None:
+            return int((s_ == t0) == (name == 'operator=='))
+        if name in ('operator<', 'operator>') and t0 is not None:
+            return int(s_ < t0 if name == 'operator<' else s_ > t0)
+        if name == 'operator+' and pat is not None:
+            return S(s_ + pat)
+        if name in ('operator+=', 'append', 'push_back') and pat is not None:
+            if name == 'append' and len(a) == 3 and isinstance(a[1], int) and isinstance(a[2], int) and t0 is not None:
+                if a[1] > len(t0):
+                    self.fault(f, st, 'std::string::append(str, %d, ...) with a string of %d character(s): std::out_of_range is thrown' % (a[1], len(t0)))
+                    raise _Abort()
+                pat = t0[a[1]:a[1] + a[2]] if a[2] < NPOS - a[1] else t0[a[1]:]
+            elif name == 'append' and len(a) == 2 and isinstance(a[1], int) and t0 is not None:
+                pat = t0[:a[1]]
+            elif name == 'append' and len(a) == 2 and isinstance(a[0], int) and isinstance(a[1], int):
+                pat = chr(a[1] & 0xff) * a[0]
+            return mutate(s_ + pat)
+        if name in ('operator=', 'assign'):
+            if pat is None and a and a[0] in (None,):
+                return NotImplemented
+            return mutate(pat if pat is not None else '')
+        if name == 'clear':
+            return mutate('')
+        if name == 'pop_back':
+            if not s_:
+                self.fault(f, st, 'std::string::pop_back() on an empty string')
+                raise _Abort()
+            return mutate(s_[:-1])
+        if name == 'erase' and a and isinstance(a[0], int):
+            n = a[1] if len(a) > 1 and isinstance(a[1], int) else NPOS
+            if a[0] > len(s_):
+                self.fault(f, st, 'std::string::erase(%d) on a string of %d character(s): std::out_of_range is thrown' % (a[0], len(s_)))
+                raise _Abort()
+            return mutate(s_[:a[0]] + (s_[a[0] + n:] if n < NPOS - a[0] else ''))
+        if name in ('reserve', 'shrink_to_fit'):
+            return None
+        return NotImplemented
 
     def is_callable(self, v):
         return callable(v) or (isinstance(v, tuple) and v and v[0] in ('lambda', 'bind', 'method'))
@@ -299,6 +436,26 @@ class Interp:
             if cls.startswith(('std::map<', 'std::unordered_map<', 'std::set<', 'std::unordered_set<')):
                 return dict(args[0]) if args and isinstance(args[0], dict) else {'__map__': True}
             if cls.startswith(('std::basic_string', 'std::__cxx11::basic_string')):
+                a_ = [x for x in args if x is not None]
+                if self.string_mode:
+                    if not a_:
+                        return S('')
+                    if isinstance(a_[0], S):
+                        return a_[0]
+                    if isinstance(a_[0], int) and len(a_) >= 2 and isinstance(a_[1], int):
+                        return S(chr(a_[1]) * a_[0])
+                    if isinstance(a_[0], P) and isinstance(self.mem.get(a_[0].r), list):
+                        if len(a_) >= 2 and isinstance(a_[1], int):
+                            sp = self.span(f, st, a_[0], a_[1], 'std::string(ptr, %d)' % a_[1])
+                            if sp is None:
+                                raise _Abort()
+                            cells = sp[0][sp[1]:sp[1] + a_[1]]
+                            if all(isinstance(c, int) for c in cells):
+                                return S(''.join(chr(c & 0xff) for c in cells))
+                            raise AnalysisBroken('%s: std::string built from bytes the replay keeps abstract (%s)' % (f.short, f.loc(st['i'])))
+                        t = self.to_text(a_[0])
+                        if t is not None:
+                            return S(t)
                 return args[0] if args and args[0] is not None else P('str:empty', 0)
             if len(args) >= 1 and cls.startswith('std::function'):
                 return args[0] if args[0] is not None else 0
@@ -405,6 +562,14 @@ class Interp:
             objv = self.ev(f, st['obj'], env)
         elif st['k'] == 'CXXOperatorCallExpr' and 'obj' not in st and args:
             objv = args[0]
+        if isinstance(objv, S) and 'obj' in st:
+            r = self.string_call(f, st, env, name, objv, args)
+            if r is not NotImplemented:
+                return r
+        if st['k'] == 'CXXOperatorCallExpr' and 'obj' not in st and any(isinstance(a, S) for a in args) and name in ('operator==', 'operator!=', 'operator+', 'operator<', 'operator>'):
+            r = self.string_call(f, st, env, name, args[0], args[1:])
+            if r is not NotImplemented:
+                return r
         ckey = '%s::%s' % ((st.get('cls') or '').split('<')[0].split('::')[-1], name)
         if ckey in self.hooks or name in self.hooks:
             self.cur_obj = objv
@@ -511,6 +676,16 @@ class Interp:
                     name = 'local:%s#%d' % (d['n'], self._tmp)
                     self.mem[name] = ['uninit'] * n
                     env[d['d']] = P(name, 0)
+                elif 'init' in d and (d.get('t') or ct).rstrip().endswith('&') and not (d.get('t') or ct).rstrip().endswith('&&'):
+                    v = self.ev(f, d['init'], env)
+                    if isinstance(v, (S, int)) and not isinstance(v, bool):
+                        try:
+                            loc = self.lv(f, d['init'], env)
+                        except AnalysisBroken:
+                            loc = None
+                        env[d['d']] = ('lref', loc) if loc is not None and loc[0] in ('dict', 'field', 'mem', 'global') else v
+                    else:
+                        env[d['d']] = v
                 elif 'init' in d:
                     env[d['d']] = wrap(self.ev(f, d['init'], env), ct)
                 else:
@@ -621,6 +796,8 @@ class Interp:
             v = env.get(st.get('d'))
             if isinstance(v, tuple) and len(v) == 2 and v[0] == 'ref':
                 return ('mem', v[1])            # a reference parameter bound to a scalar cell of the caller
+            if isinstance(v, tuple) and len(v) == 2 and v[0] == 'lref':
+                return v[1]                     # a local reference bound to a member / element
             return ('var', st['d'])
         if k == 'MemberExpr' and st.get('mk') == 'static' and st.get('q') in self.globals:
             return ('global', st['q'])
@@ -771,6 +948,8 @@ class Interp:
                     v = env[st['d']]
                     if isinstance(v, tuple) and len(v) == 2 and v[0] == 'ref':
                         return self.load(f, st, v[1])
+                    if isinstance(v, tuple) and len(v) == 2 and v[0] == 'lref':
+                        return self.read(f, st, v[1], env)
                     return v
                 if 'cv' in st:
                     return st['cv']         # a constant the compiler has folded (constexpr / const integral global)
@@ -843,7 +1022,15 @@ class Interp:
                 if loc[0] == 'var' and isinstance(env.get(loc[1]), P):
                     return env[loc[1]]
                 if loc[0] == 'var':
-                    raise AnalysisBroken('%s: the address of a scalar local is taken at %s (access to its bytes is not modelled)' % (f.short, f.loc(e)))
+                    # the address of a scalar local: from now on the variable lives in a cell of its own, and the name is a reference to it
+                    cur = env.get(loc[1])
+                    if isinstance(cur, (D,)) or (st.get('ct') or st.get('t') or '').replace('const ', '').strip() in ('void *', 'const void *'):
+                        raise AnalysisBroken('%s: the address of a local is taken for access to its bytes at %s (not modelled)' % (f.short, f.loc(e)))
+                    self._tmp += 1
+                    name = 'cell#%d' % self._tmp
+                    self.mem[name] = [cur]
+                    env[loc[1]] = ('ref', P(name, 0))
+                    return P(name, 0)
                 raise AnalysisBroken('%s: unsupported address-of at %s' % (f.short, f.loc(e)))
             if op == '*':
                 return self.read(f, st, self.lv(f, e, env), env)
@@ -904,7 +1091,9 @@ class Interp:
         if k == 'StringLiteral':
             name = 'str@%d:%d' % (st['l'], st['i'])
             if name not in self.mem:
-                self.mem[name] = [ord(c) & 0xff for c in (st.get('v') or '')] + [0]
+                import re as _re
+                raw = _re.sub(r'\\x([0-9a-f]{2})', lambda m: chr(int(m.group(1), 16)), st.get('v') or '')    # the extractor writes bytes outside printable ASCII (and the backslash) as \xNN
+                self.mem[name] = [ord(c) & 0xff for c in raw] + [0]
             return P(name, 0)
         if k == 'InitListExpr':
             ct = st.get('ct') or st.get('t') or ''
@@ -1062,6 +1251,10 @@ def _push(it, f, st, a):
 
 def _numeric_limit(which):
     def h(it, f, st, a):
+        if len(a) == 2:
+            if all(isinstance(x, int) for x in a):
+                return max(a) if which == 'max' else min(a)     # std::max / std::min
+            return None
         w = WIDTH.get((st.get('t') or '').replace('const ', '').strip()) or WIDTH.get((st.get('ct') or '').strip())
         if w is None:
             raise AnalysisBroken('%s: numeric_limits of a type the replay does not know (%s)' % (f.short, f.loc(st['i'])))
